@@ -486,7 +486,7 @@ func main() {
 				matched = true
 				if !knownSeen[f.Signature] {
 					knownSeen[f.Signature] = true
-					fmt.Printf("KNOWN-FINDING: property=%s %s\n", prop, f.Text)
+					fmt.Printf("KNOWN-FINDING: %s\n", f.Text)
 				}
 			}
 		}
